@@ -28,6 +28,7 @@ pub fn test_case(case: &ModelCase) -> TestResult {
     }
     alt.dict.truncate(spec.dict.len() / 2);
     let mut repredicted = false;
+    let mut reannotated = false;
     for predict_tags in [false, true] {
         let p = util::predictor(spec, predict_tags)?;
         let p_alt = util::predictor(&alt, !predict_tags)?;
@@ -45,6 +46,15 @@ pub fn test_case(case: &ModelCase) -> TestResult {
                 // overwritten completely
                 p_alt.predict(&mut s);
                 repredicted = true;
+            }
+            if ti % 3 == 1 || (ti == 0 && case.texts.len() == 1 && cs.len() % 2 == 1) {
+                // the same predictor has predicted this sentence before and its decisions were
+                // overwritten by hand since ("overwriting any earlier annotation")
+                p.predict(&mut s);
+                for (i, b) in s.boundaries_mut().iter_mut().enumerate() {
+                    *b = oracle::boundary_of(((i + ti) % 3) as u8);
+                }
+                reannotated = true;
             }
             p.predict(&mut s);
             let got = util::scores_i64(&s);
@@ -114,7 +124,8 @@ pub fn test_case(case: &ModelCase) -> TestResult {
         )
         .class(!spec.tag_models.is_empty(), "has-tag-models(BoundaryTag scorers)")
         .class(!spec.dict.is_empty(), "has-dictionary")
-        .class(repredicted, "re-predicted-after-another-predictor");
+        .class(repredicted, "re-predicted-after-another-predictor")
+        .class(reannotated, "re-predicted-by-the-same-predictor-after-hand-edits");
     Ok(info)
 }
 
